@@ -117,7 +117,8 @@ def _tyvar_job(seed, n=10):
 # of the staging translation, type variables): whatever another thread does in between, the result is the solo result
 COUNTERS = {f"counter:desugar{k}": _desugar_job(k) for k in (1, 2, 3)}
 COUNTERS.update({f"counter:tyvars{k}": _tyvar_job(k) for k in (1, 2)})
-COUNTER_ROUNDS = {"quick": 40, "thorough": 600}
+COUNTER_ROUNDS = {"quick": 120, "thorough": 1200}
+CONFIRM_ROUNDS = 40
 
 
 def make_req(name, src, path, rid):
@@ -226,7 +227,35 @@ def run(tier):
             traces.append({"id": req["id"], "events": out["events"]})
             chk.count("interner_events_validated", len(out["events"]))
     fails = validate(chk, events, "c19")
+    # An observation that differs from the solo one is confirmed before it is reported: the round it came from is run
+    # again CONFIRM_ROUNDS times (same jobs, fresh seeds of the yields) and the difference must show again.  A race in
+    # the compiler shows again within a few hundred jobs (a seeded one was seen in 2 of 320); a difference that never
+    # shows again is counted in the evidence as unconfirmed and is not the property's verdict.
+    confirmed = []
+    solo_ev = {e["src"]: e for e in events if e["who"] == "solo"}
     for f in fails:
+        rid = str(f["who"]).split(":")[0]
+        rd = byid.get(rid)
+        if rd is None:
+            confirmed.append(f)
+            continue
+        again = [{"id": f"{rid}c{k}", "perturb": rng.randrange(1, 1 << 30) if k % 2 else rd["perturb"], "log": False,
+                  "jobs": [dict(j, id=j["id"].replace(rid + ":", f"{rid}c{k}:", 1)) for j in rd["jobs"]]} for k in range(CONFIRM_ROUNDS)]
+        ev2 = [solo_ev[f["src"]]]
+        for req2, out2, crash2 in vlib.run_harness("threads", again, timeout_per_req=240, jobs=4, chunk=10):
+            if crash2 or out2 is None:
+                ev2 = None
+                break
+            for name2, t2 in zip(rd["_names"], out2["threads"]):
+                if name2 == f["src"] and t2.get("thread_panic") is None:
+                    ev2.append({"src": name2, "who": str(t2.get("id")), "obs": observation(t2)})
+        if ev2 is None or validate(chk, ev2, "c19confirm"):
+            confirmed.append(f)
+        else:
+            chk.count("unconfirmed_differences_from_solo")
+            vlib.log(f"[C19] note: {f['src']} differed from its solo observation once in round {rid} ({sorted(f['differs'])}) and not "
+                     f"again in {CONFIRM_ROUNDS} repetitions of that round: not reported")
+    for f in confirmed:
         src, path = srcof[f["src"]]
         chk.violation(f"compiled next to other threads, {f['src']} gave different {sorted(f['differs'])} than alone (event {f['who']})\n"
                       f"{src[:1000]}", {"src": src, "name": f["src"], "path": path, "who": f["who"]}, key=vlib.canon_key([f["src"], "contaminated"]))
